@@ -7,7 +7,8 @@ object map is abstracted (`impl/world.py`) to the model's `Store`; `repo.step` o
 object map, error kind and uploaded chunk set, and the observed backend mutation trace must be accepted by `trace.accepts`
 (a linearisation of `planOf`).  Theorems: Properties/C02.lean (`consistent_step`, `consistent_reachable`,
 `restore_listed_exact`, `remaining_snapshot_unchanged`, `snapshot_survives_history`, `no_overwrite`, `consistent_prefix` (all commands),
-`consistent_interleaved`).
+`consistent_interleaved`, `consistent_concurrent`, `concurrent_equals_sequential`, `sequential_is_concurrent`,
+`restore_unaffected_by_concurrent_snapshots`, `restore_spanning_concurrent_snapshots`).
 
 Direct oracles (the property's statement on the real code, after EVERY command):
   * every snapshot that is still listed is restored with its owner's key by a regex on its own name and must yield exactly the
@@ -16,6 +17,16 @@ Direct oracles (the property's statement on the real code, after EVERY command):
   * no object holds bytes other than those written for it, no snapshot object changes, a refused command mutates nothing.
 A second, targeted stream exercises overlapping snapshot commands (two real `snapshot` coroutines of two users interleaved on
 one event loop) — the situation of `consistent_interleaved`.
+A third stream (`impl/histx.py::conc_case`) overlaps k = 2…4 REAL `Repository.snapshot` coroutines of several users (each with its
+own worker pool) on one backend, every `exists` / `upload` call gated and released in a generated order, while a reader issues
+list-snapshots / list-files / restore commands at random points.  The observed per-call event trace is replayed by the compiled
+concurrent model (`repo.conc`, ReplicatModel/RepoConc.lean), which must ACCEPT it, end in the implementation's object map, answer
+every read as the implementation did, and whose sequential runs of the same commands (three orders) must end in that same map —
+the situation of `consistent_concurrent`, `concurrent_equals_sequential`, `restore_unaffected_by_concurrent_snapshots`,
+`restore_spanning_concurrent_snapshots`; the model must also accept the sequential schedule of the same commands and end it in the
+store of the sequential model (`sequential_is_concurrent`).  Direct oracle there: every snapshot listed at any point (or stored before) is restored
+exactly by its owner at every later point of the execution (`conc:listed-snapshot-not-restored-exactly`); a snapshot object is
+never stored before one of its chunks (`conc:referenced-chunk-missing`); no overlapping command fails.
 """
 import asyncio
 import json
@@ -318,12 +329,14 @@ def run(out, drv, info):
                 '(owner + 0–3 of clone/shared/independent) × ' + str(n_ops) + ' operations from {snapshot of a file set built from shared blocks (paths appear/change/disappear, '
                 'repeat of the previous data), delete of own / another user\'s / unknown snapshots, clean, orphan injection}; '
                 'non-trivial = contains a successful delete or clean while ≥ 2 snapshot objects share ≥ 1 chunk; distinct = hash of (config, users, op kinds); '
-                'plus overlapping-snapshot cases (two real snapshot coroutines interleaved), non-trivial = the two file sets share a block; plus ALL histories up to length 2 (quick) / 3 (thorough) and a sample of length 4 over the alphabet {snapshot A, snapshot B, delete oldest own, delete newest own, clean} × 2 users in four key graphs (shared, independent, clone, unencrypted), non-trivial = ≥ 2 snapshots and a delete or clean; plus commands cut short at the k-th backend mutation (delete / clean / snapshot), non-trivial = really interrupted after ≥ 1 mutation; plus restore-tie cases (real restore vs model restore per (user, snapshot) pair)')
+                'plus overlapping-snapshot cases (two real snapshot coroutines interleaved), non-trivial = the two file sets share a block; plus overlapping-command cases call by call (2–4 real snapshot coroutines of several users, pools of 1–5 workers, every backend call gated and released by one of 6 scheduling styles, 0–2 snapshots stored before, a reader issuing list / list-files / restore during the execution and restoring every listed snapshot at the end), non-trivial = the calls of different commands alternate ≥ k times and ≥ 1 read happens while snapshots are running; plus ALL histories up to length 2 (quick) / 3 (thorough) and a sample of length 4 over the alphabet {snapshot A, snapshot B, delete oldest own, delete newest own, clean} × 2 users in four key graphs (shared, independent, clone, unencrypted), non-trivial = ≥ 2 snapshots and a delete or clean; plus commands cut short at the k-th backend mutation (delete / clean / snapshot), non-trivial = really interrupted after ≥ 1 mutation; plus restore-tie cases (real restore vs model restore per (user, snapshot) pair)')
     out.assumptions = ['ideal cryptography: digest = content id, MAC names injective per key family (DESIGN.md §4)',
                        'destructive commands (delete, clean) do not overlap with other commands (README)',
                        'unencrypted repository = one family (no keys)',
                        'CPython, asyncio, cryptography, hashlib; memory backend with the Backend interface']
     X.run(out, drv, 'C02', n_hist, n_ops, ORACLES, H.nontrivial, EXTRA)
+    # overlapping commands, call by call: k real snapshot coroutines + a reader, gated; replayed on the concurrent model
+    X.run_conc(out, drv, 'C02-conc', 48 if quick else 600, 'c02')
     # overlapping snapshots
     import multiprocessing as mp
     n_ov = 48 if quick else 400
@@ -404,6 +417,8 @@ def _replay(path, drv):
     rp = d.get('replay', d)
     if rp.get('kind') == 'history':
         return X.replay_history(rp, drv, ORACLES, EXTRA)
+    if rp.get('kind') == 'conc':
+        return X.replay_conc(rp, drv, 'c02')
     if rp.get('kind') == 'overlap':
         res = overlap_case((rp['seed'], rp['idx']))
         print('summary', res['summary'])
